@@ -277,7 +277,23 @@ def _bounded(shard, nshards):
         def report_not_a_multiple(w):
             w.options.time.hydraulic_timestep = 3600
             w.options.time.report_timestep = 5000
+        def unsorted_pump_curve(w):
+            # a head pump whose two-point curve was entered high-flow point first (EPANET itself refuses such a curve: WNTRSimulator only)
+            pn = w.pump_name_list[0] if w.pump_name_list else None
+            if pn is not None and hasattr(w.get_link(pn), "pump_curve_name"):
+                w.add_curve("verif_backwards", "HEAD", [(0.12, 40.0), (0.04, 75.0)])
+                w.get_link(pn).pump_curve_name = "verif_backwards"
+
+        def rule_registered_under_another_name(w):
+            from wntr.network.controls import Rule, ControlAction, SimTimeCondition
+            l = w.get_link(w.pipe_name_list[len(w.pipe_name_list) // 2])
+            w.add_control("verif_registered_key", Rule(SimTimeCondition(w, ">=", 4 * 3600), [ControlAction(l, "status", 1)], [ControlAction(l, "status", 1)], name="verif_own_name"))
         extra = []
+        for name, wn in work[:2]:
+            for vn, fn in (("unsorted_pump_curve", unsorted_pump_curve), ("rule_registered_under_another_name", rule_registered_under_another_name)):
+                w2 = copy.deepcopy(wn)
+                fn(w2)
+                extra.append(("%s+%s" % (name, vn), w2))
         for name, wn in work[:3]:
             for vn, fn in (("report_below_hydraulic", report_below_hydraulic), ("pdd_low_required_pressure", pdd_low_required_pressure),
                            ("report_not_a_multiple", report_not_a_multiple)):
@@ -330,6 +346,32 @@ def _bounded(shard, nshards):
                     r3 = wntr.sim.WNTRSimulator(copy.deepcopy(wn)).run_sim()
                     evals += 2
                     distinct.add((name, simname, "rerun"))
+                    extra_runs = []
+                    hp = [pn_ for pn_, pu in wn.pumps() if getattr(pu, "pump_curve_name", None)]
+                    if hp and name.endswith(".inp"):
+                        # a definition change between two runs (the curve's points through its setter): the model and a reloaded equal model agree
+                        cv = wn.get_curve(wn.get_link(hp[0]).pump_curve_name)
+                        old_pts = list(cv.points)
+                        cv.points = [(q * 1.0, h * 0.8) for q, h in old_pts]
+                        wn.reset_initial_values()
+                        r4 = wntr.sim.WNTRSimulator(wn).run_sim()
+                        twin = wntr.network.from_dict(copy.deepcopy(wntr.network.to_dict(wn)))
+                        r5 = wntr.sim.WNTRSimulator(twin).run_sim()
+                        cv.points = old_pts
+                        wn.reset_initial_values()
+                        evals += 1
+                        distinct.add((name, simname, "curve_changed_between_runs"))
+                        extra_runs = [("reloaded_equal_model_after_a_curve_change", r4, r5)]
+                    for tag, ra, rb in extra_runs:
+                        same_index = list(ra.node["head"].index) == list(rb.node["head"].index)
+                        worst = 0.0
+                        if same_index:
+                            for grp, k in (("node", "head"), ("link", "flowrate")):
+                                a, b = getattr(ra, grp)[k], getattr(rb, grp)[k]
+                                if a.size:
+                                    worst = max(worst, float(np.nanmax(np.abs(a.values.astype(float) - b[a.columns].values.astype(float)))))
+                        if not same_index or worst > 1e-6:
+                            failures.append(dict(model=name, check=tag, same_time_index=same_index, max_abs_difference=worst))
                     for tag, rr in (("reset_and_rerun", r2), ("deepcopy", r3)):
                         worst = 0.0
                         same_index = list(rr.node["head"].index) == list(r1.node["head"].index)
